@@ -286,6 +286,7 @@ package nutsdb
 //@   ensures[C10,C20] old(pendingOK(tx)) && result == nil && recShapeOf(flag, ds, key, value) ==> pendingEach(tx)
 //@   ensures[C10] old(pendingOK(tx)) && result == nil ==> pendingDistinct(tx)
 //@   modifies tx.pendingWrites, elems(tx.pendingWrites)
+//@   safety[C14] locks
 //@   safety[C20] panics
 
 // ---------------------------------------------------------------------------
@@ -298,6 +299,8 @@ package nutsdb
 //@ spec ghost lastWriteOff int64
 //@ spec ghost idxMut int
 //@ spec ghost lockMode int
+// State of DB that may be read only while holding db.mu (any mode) and written only while holding it exclusively:
+//@ spec guarded DB.BPTreeIdx, DB.SetIdx, DB.ListIdx, DB.SortedSetIdx, DB.ActiveFile, DB.ActiveBPTreeIdx, DB.ActiveCommittedTxIdsIdx, DB.BPTreeRootIdxes, DB.BPTreeKeyEntryPosMap, DB.bucketMetas, DB.committedTxIds, DB.MaxFileID, DB.KeyCount, DB.closed, DB.isMerging by lockMode
 
 //@ extern sync.RWMutex.Lock (m)
 //@   ensures lockMode == 2
@@ -348,6 +351,7 @@ package nutsdb
 //@   modifies unsynced
 
 //@ func Tx.rotateActiveFile
+//@   requires[C14] lockMode == 2
 //@   requires tx != nil && tx.db != nil && tx.db.ActiveFile != nil && tx.db.ActiveFile.rwManager != nil && tx.ReservedStoreTxIDIdxes != nil
 //@   requires tx.db.opt.EntryIdxMode == HintBPTSparseIdxMode ==> tx.db.ActiveBPTreeIdx != nil && tx.db.ActiveCommittedTxIdsIdx != nil
 //@   requires tx.db.BPTreeKeyEntryPosMap != nil
@@ -361,6 +365,7 @@ package nutsdb
 //@   ensures result != nil ==> tx.db.ActiveFile == old(tx.db.ActiveFile) || tx.db.ActiveFile == nil
 //@   modifies tx.db.MaxFileID, tx.db.ActiveFile, tx.db.BPTreeRootIdxes, elems(tx.db.BPTreeRootIdxes), tx.db.BPTreeKeyEntryPosMap, tx.db.ActiveBPTreeIdx, tx.db.ActiveCommittedTxIdsIdx,
 //@        entries(tx.ReservedStoreTxIDIdxes), alltype(Node), alltype(BPTree), queue, unsynced
+//@   safety[C14] locks
 //@   safety[C20] panics
 
 // ---- strconv2 (decimal text of integers): itoa is injective and atoi inverts it
@@ -402,6 +407,7 @@ package nutsdb
 //@   ensures tx.db.opt.EntryIdxMode != HintBPTSparseIdxMode ==> has(tx.db.BPTreeIdx, bucket) && tx.db.BPTreeIdx[bucket] != nil
 //@   ensures[C15] old(treesOK(tx.db)) ==> treesOK(tx.db)
 //@   modifies entries(tx.db.BPTreeIdx), alltype(BPTree), alltype(Node), alltype(Record), idxMut
+//@   safety[C14] locks
 //@   safety[C20] panics
 
 //@ func Tx.buildSortedSetIdx
@@ -425,6 +431,7 @@ package nutsdb
 //@   at call PopMin: assert[C07,C08,C13] entry.Meta.Flag == DataZPopMinFlag && $arg0 == tx.db.SortedSetIdx[bucket]
 //@   modifies entries(tx.db.SortedSetIdx), alltype(zset.SortedSet), all(zset.SortedSetNode.backward), all(zset.SortedSetNode.Value), idxMut,
 //@        allelems(tx.db.SortedSetIdx[bucket].header.level), allentries(tx.db.SortedSetIdx[bucket].Dict)
+//@   safety[C14] locks
 //@   safety[C20] panics
 //@ spec func applicable(db *DB) bool = setsOK(db) && listsOK(db) && zsetsOK(db)
 //@ func Tx.buildIdxes
@@ -435,6 +442,7 @@ package nutsdb
 //@   ensures applicable(tx.db) && idxMut >= old(idxMut)
 //@   modifies tx.db.KeyCount, entries(tx.db.SetIdx), entries(tx.db.ListIdx), entries(tx.db.SortedSetIdx), alltype(zset.SortedSet), all(zset.SortedSetNode.backward), all(zset.SortedSetNode.Value), allelems(tx.db.SortedSetIdx[""].header.level), allentries(tx.db.SortedSetIdx[""].Dict), idxMut,
 //@        allentries(tx.db.SetIdx[""].M), allentries(tx.db.SetIdx[""].M[""]), allentries(tx.db.ListIdx[""].Items), allelems(tx.db.ListIdx[""].Items[""])
+//@   safety[C14] locks
 //@   safety[C20] panics
 //@   loops 1
 //@   loop 1: modifies tx.db.KeyCount, entries(tx.db.SetIdx), entries(tx.db.ListIdx), entries(tx.db.SortedSetIdx), alltype(zset.SortedSet), all(zset.SortedSetNode.backward), all(zset.SortedSetNode.Value), allelems(tx.db.SortedSetIdx[""].header.level), allentries(tx.db.SortedSetIdx[""].Dict), idxMut,
@@ -471,6 +479,7 @@ package nutsdb
 //@   ensures[C15] forall d *DataFile :: old(allocated(d)) ==> d.rwManager == old(d.rwManager)
 //@   ensures[C15] old(tx.db) != nil ==> treesOK(old(tx.db)) && old(tx.db).isMerging == old(tx.db.isMerging)
 //@   modifies everything
+//@   safety[C14] locks
 //@   safety[C20] panics
 //@   loops 1
 //@   loop 1: invariant 0 <= i && i <= writesLen && tx == old(tx) && tx.db == old(tx.db) && tx.db != nil && writesLen == len(tx.pendingWrites) && lastIndex == writesLen - 1
@@ -709,7 +718,8 @@ package nutsdb
 //@        (forall b string :: has(db.SetIdx, b) ==> set.setOK(db.SetIdx[b])) &&
 //@        (forall b string :: has(db.ListIdx, b) ==> db.ListIdx[b] != nil && db.ListIdx[b].Items != nil) &&
 //@        (forall b string :: has(db.SortedSetIdx, b) ==> db.SortedSetIdx[b] != nil)
-//@ spec func txOK(tx *Tx) bool = tx != nil && pendingOK(tx) && (tx.db != nil ==> idxOK(tx.db))
+//@ spec func txLocked(tx *Tx) bool = tx.db != nil ==> (tx.writable ==> lockMode == 2) && (!tx.writable ==> lockMode == 1)
+//@ spec func txOK(tx *Tx) bool = tx != nil && pendingOK(tx) && (tx.db != nil ==> idxOK(tx.db)) && txLocked(tx)
 //@ spec func appended(tx *Tx, n int) bool = len(tx.pendingWrites) == old(len(tx.pendingWrites)) + n && prefixSame(tx)
 
 //@ func Tx.push
@@ -744,6 +754,7 @@ package nutsdb
 //@        (forall j int :: 0 <= j && j < len(items) ==> entryIs(tx.pendingWrites[old(len(tx.pendingWrites)) + j], tx, bucket, key, items[j], DataSetFlag, DataStructureSet))
 //@   ensures pendingOK(tx)
 //@   modifies[C06,C08,C12] tx.pendingWrites, elems(tx.pendingWrites)
+//@   safety[C14] locks
 //@   safety[C20] panics
 //@ func Tx.SRem
 //@   requires txOK(tx)
@@ -754,35 +765,41 @@ package nutsdb
 //@        (forall j int :: 0 <= j && j < len(items) ==> entryIs(tx.pendingWrites[old(len(tx.pendingWrites)) + j], tx, bucket, key, items[j], DataDeleteFlag, DataStructureSet))
 //@   ensures pendingOK(tx)
 //@   modifies[C06,C08,C12] tx.pendingWrites, elems(tx.pendingWrites)
+//@   safety[C14] locks
 //@   safety[C20] panics
 //@ func Tx.SAreMembers
 //@   requires txOK(tx)
 //@   ensures[C12,C20] tx.db == nil ==> result1 == ErrTxClosed
 //@   ensures[C06] result1 == nil ==> result0 && has(tx.db.SetIdx, bucket) && (forall j int :: 0 <= j && j < len(items) ==> set.member(tx.db.SetIdx[bucket], string(key), string(items[j])))
 //@   modifies[C06,C08,C12] nothing
+//@   safety[C14] locks
 //@   safety[C20] panics
 //@ func Tx.SIsMember
 //@   requires txOK(tx)
 //@   ensures[C12,C20] tx.db == nil ==> result1 == ErrTxClosed
 //@   ensures[C06] result0 == (tx.db != nil && has(tx.db.SetIdx, bucket) && set.member(tx.db.SetIdx[bucket], string(key), string(item))) && (result0 <==> result1 == nil)
 //@   modifies[C06,C08,C12] nothing
+//@   safety[C14] locks
 //@   safety[C20] panics
 //@ func Tx.SMembers
 //@   requires txOK(tx)
 //@   ensures[C12,C20] tx.db == nil ==> err == ErrTxClosed
 //@   ensures[C06] err == nil ==> has(tx.db.SetIdx, bucket) && has(tx.db.SetIdx[bucket].M, string(key)) && set.listOnly(list, tx.db.SetIdx[bucket].M[string(key)]) && set.listDistinct(list)
 //@   modifies[C06,C08,C12] nothing
+//@   safety[C14] locks
 //@   safety[C20] panics
 //@ func Tx.SHasKey
 //@   requires txOK(tx)
 //@   ensures[C12,C20] tx.db == nil ==> result1 == ErrTxClosed
 //@   ensures[C06] result1 == nil ==> result0 == has(tx.db.SetIdx[bucket].M, string(key))
 //@   modifies[C06,C08,C12] nothing
+//@   safety[C14] locks
 //@   safety[C20] panics
 //@ func Tx.SCard
 //@   requires txOK(tx)
 //@   ensures[C12,C20] tx.db == nil ==> result1 == ErrTxClosed
 //@   modifies[C06,C08,C12] nothing
+//@   safety[C14] locks
 //@   safety[C20] panics
 //@ func Tx.SPop
 //@   requires txOK(tx)
@@ -793,26 +810,31 @@ package nutsdb
 //@        string(tx.pendingWrites[old(len(tx.pendingWrites))].Value) == string(result0)
 //@   ensures pendingOK(tx)
 //@   modifies[C06,C08,C12] tx.pendingWrites, elems(tx.pendingWrites)
+//@   safety[C14] locks
 //@   safety[C20] panics
 //@ func Tx.SDiffByOneBucket
 //@   requires txOK(tx)
 //@   ensures[C12,C20] tx.db == nil ==> err == ErrTxClosed
 //@   modifies[C06,C08,C12] nothing
+//@   safety[C14] locks
 //@   safety[C20] panics
 //@ func Tx.SUnionByOneBucket
 //@   requires txOK(tx)
 //@   ensures[C12,C20] tx.db == nil ==> err == ErrTxClosed
 //@   modifies[C06,C08,C12] nothing
+//@   safety[C14] locks
 //@   safety[C20] panics
 //@ func Tx.SMoveByOneBucket
 //@   requires txOK(tx)
 //@   ensures[C12,C20] tx.db == nil ==> result1 == ErrTxClosed
 //@   modifies[C06,C08,C12] nothing
+//@   safety[C14] locks
 //@   safety[C20] panics
 //@ func Tx.SMoveByTwoBuckets
 //@   requires txOK(tx)
 //@   ensures[C12,C20] tx.db == nil ==> result1 == ErrTxClosed
 //@   modifies[C06,C08,C12] nothing
+//@   safety[C14] locks
 //@   safety[C20] panics
 
 // ---- lists
@@ -849,6 +871,7 @@ package nutsdb
 //@        (forall j int :: 0 <= j && j < len(values) ==> entryIs(tx.pendingWrites[old(len(tx.pendingWrites)) + j], tx, bucket, key, values[j], DataRPushFlag, DataStructureList))
 //@   ensures pendingOK(tx)
 //@   modifies[C05,C08,C12] tx.pendingWrites, elems(tx.pendingWrites)
+//@   safety[C14] locks
 //@   safety[C20] panics
 //@ func Tx.LPush
 //@   requires txOK(tx)
@@ -859,6 +882,7 @@ package nutsdb
 //@        (forall j int :: 0 <= j && j < len(values) ==> entryIs(tx.pendingWrites[old(len(tx.pendingWrites)) + j], tx, bucket, key, values[j], DataLPushFlag, DataStructureList))
 //@   ensures pendingOK(tx)
 //@   modifies[C05,C08,C12] tx.pendingWrites, elems(tx.pendingWrites)
+//@   safety[C14] locks
 //@   safety[C20] panics
 //@ func Tx.LPeek
 //@   requires txOK(tx)
@@ -866,6 +890,7 @@ package nutsdb
 //@   ensures[C05] err == nil ==> has(tx.db.ListIdx, bucket) && has(tx.db.ListIdx[bucket].Items, string(key)) && len(tx.db.ListIdx[bucket].Items[string(key)]) > 0 &&
 //@        item == tx.db.ListIdx[bucket].Items[string(key)][0]
 //@   modifies[C05,C08,C12] nothing
+//@   safety[C14] locks
 //@   safety[C20] panics
 //@ func Tx.RPeek
 //@   requires txOK(tx)
@@ -873,6 +898,7 @@ package nutsdb
 //@   ensures[C05] err == nil ==> has(tx.db.ListIdx, bucket) && has(tx.db.ListIdx[bucket].Items, string(key)) && len(tx.db.ListIdx[bucket].Items[string(key)]) > 0 &&
 //@        item == tx.db.ListIdx[bucket].Items[string(key)][len(tx.db.ListIdx[bucket].Items[string(key)]) - 1]
 //@   modifies[C05,C08,C12] nothing
+//@   safety[C14] locks
 //@   safety[C20] panics
 //@ func Tx.LPop
 //@   requires txOK(tx)
@@ -882,6 +908,7 @@ package nutsdb
 //@        entryIs(tx.pendingWrites[old(len(tx.pendingWrites))], tx, bucket, key, item, DataLPopFlag, DataStructureList)
 //@   ensures pendingOK(tx)
 //@   modifies[C05,C08,C12] tx.pendingWrites, elems(tx.pendingWrites)
+//@   safety[C14] locks
 //@   safety[C20] panics
 //@ func Tx.RPop
 //@   requires txOK(tx)
@@ -891,6 +918,7 @@ package nutsdb
 //@        entryIs(tx.pendingWrites[old(len(tx.pendingWrites))], tx, bucket, key, item, DataRPopFlag, DataStructureList)
 //@   ensures pendingOK(tx)
 //@   modifies[C05,C08,C12] tx.pendingWrites, elems(tx.pendingWrites)
+//@   safety[C14] locks
 //@   safety[C20] panics
 //@ func Tx.LSize
 //@   requires txOK(tx)
@@ -899,12 +927,14 @@ package nutsdb
 //@   ensures result0 >= 0
 //@   ensures[C05] tx.db != nil && has(tx.db.ListIdx, bucket) && has(tx.db.ListIdx[bucket].Items, string(key)) ==> result1 == nil
 //@   modifies[C05,C08,C12] nothing
+//@   safety[C14] locks
 //@   safety[C20] panics
 //@ func Tx.LRange
 //@   requires txOK(tx)
 //@   ensures[C12,C20] tx.db == nil ==> err == ErrTxClosed
 //@   ensures[C05] err == nil ==> has(tx.db.ListIdx, bucket) && has(tx.db.ListIdx[bucket].Items, string(key))
 //@   modifies[C05,C08,C12] nothing
+//@   safety[C14] locks
 //@   safety[C20] panics
 //@ func Tx.LSet
 //@   requires txOK(tx)
@@ -916,6 +946,7 @@ package nutsdb
 //@        string(tx.pendingWrites[old(len(tx.pendingWrites))].Key) == concat(concat(string(key), SeparatorForListKey), itoa(index))
 //@   ensures pendingOK(tx)
 //@   modifies[C05,C08,C12] tx.pendingWrites, elems(tx.pendingWrites)
+//@   safety[C14] locks
 //@   safety[C20] panics
 //@ func Tx.LTrim
 //@   requires txOK(tx)
@@ -926,6 +957,7 @@ package nutsdb
 //@        string(tx.pendingWrites[old(len(tx.pendingWrites))].Value) == itoa(end)
 //@   ensures pendingOK(tx)
 //@   modifies[C05,C08,C12] tx.pendingWrites, elems(tx.pendingWrites)
+//@   safety[C14] locks
 //@   safety[C20] panics
 
 //@ func Tx.LRem
@@ -937,6 +969,7 @@ package nutsdb
 //@        string(tx.pendingWrites[old(len(tx.pendingWrites))].Value) == concat(concat(itoa(count), SeparatorForListKey), string(value))
 //@   ensures pendingOK(tx)
 //@   modifies[C05,C08,C12] tx.pendingWrites, elems(tx.pendingWrites)
+//@   safety[C14] locks
 //@   safety[C05,C20] panics overflow
 
 // ---------------------------------------------------------------------------
@@ -971,10 +1004,12 @@ package nutsdb
 //@   modifies nothing
 
 //@ func Tx.getHintIdxDataItemsWrapper
+//@   requires[C14] lockMode >= 1
 //@   requires tx != nil && tx.db != nil && recsOK(records)
 //@   ensures result1 == nil ==> len(result0) >= len(es)
 //@   ensures[C03] result1 == nil && limitNum > 0 && len(es) <= limitNum ==> len(result0) <= limitNum
 //@   modifies lastReadOff, elems(es)
+//@   safety[C14] locks
 //@   safety[C20] panics
 //@   loops 1
 //@   loop 1: modifies elems(es), lastReadOff
@@ -994,7 +1029,8 @@ package nutsdb
 //@   at return: assert[C01,C12,C19] err == nil && tx.db.opt.EntryIdxMode != HintBPTSparseIdxMode ==> has(tx.db.BPTreeIdx, bucket) && liveRec(r) &&
 //@        has(tx.db.committedTxIds, r.H.meta.txID) && (tx.db.opt.EntryIdxMode == HintKeyValAndRAMIdxMode ==> e == r.E) &&
 //@        (tx.db.opt.EntryIdxMode == HintKeyAndRAMIdxMode ==> lastReadOff == r.H.dataPos)
-//@   modifies lastReadOff, elems(tx.db.BPTreeRootIdxes)
+//@   modifies lastReadOff
+//@   safety[C14] locks
 //@   safety[C20] panics
 
 //@ func Tx.Delete
@@ -1004,6 +1040,7 @@ package nutsdb
 //@   ensures[C01] result == nil ==> appended(tx, 1) && entryIs(tx.pendingWrites[old(len(tx.pendingWrites))], tx, bucket, key, tx.pendingWrites[old(len(tx.pendingWrites))].Value, DataDeleteFlag, DataStructureBPTree)
 //@   ensures pendingOK(tx)
 //@   modifies[C01,C08,C12] tx.pendingWrites, elems(tx.pendingWrites)
+//@   safety[C14] locks
 //@   safety[C20] panics
 //@ func Tx.Put
 //@   requires txOK(tx)
@@ -1013,6 +1050,7 @@ package nutsdb
 //@        tx.pendingWrites[old(len(tx.pendingWrites))].Meta.TTL == ttl && tx.pendingWrites[old(len(tx.pendingWrites))].Key == key && tx.pendingWrites[old(len(tx.pendingWrites))].Value == value
 //@   ensures pendingOK(tx)
 //@   modifies[C01,C08,C12] tx.pendingWrites, elems(tx.pendingWrites)
+//@   safety[C14] locks
 //@   safety[C20] panics
 //@ func Tx.PutWithTimestamp
 //@   requires txOK(tx)
@@ -1022,6 +1060,7 @@ package nutsdb
 //@        tx.pendingWrites[old(len(tx.pendingWrites))].Key == key && tx.pendingWrites[old(len(tx.pendingWrites))].Value == value && tx.pendingWrites[old(len(tx.pendingWrites))].Meta.Flag == DataSetFlag
 //@   ensures pendingOK(tx)
 //@   modifies[C01,C08,C12] tx.pendingWrites, elems(tx.pendingWrites)
+//@   safety[C14] locks
 //@   safety[C20] panics
 
 // ---------------------------------------------------------------------------
@@ -1138,11 +1177,14 @@ package nutsdb
 //@   at stored numFound: assert[C03] numFound > 0 ==> liveRec(ifaceval(n.pointers[i], Record))
 
 //@ func Tx.rangeScanOnDisk
+//@   requires[C14] lockMode >= 1
 //@   requires tx != nil && tx.db != nil && rootIdxesOK(tx.db)
 //@   ensures rootIdxesOK(tx.db)
 //@   ensures[C02] result1 == nil ==> entsOK(result0)
-//@   modifies lastReadOff, elems(tx.db.BPTreeRootIdxes)
+//@   modifies lastReadOff
+//@   safety[C14] locks
 //@   safety[C20] panics
+//@   at call SortFID: assert[C12,C14] len($arg0) > 0 ==> arr($arg0) != arr(tx.db.BPTreeRootIdxes)
 //@   loops 1
 //@   loop 1: modifies lastReadOff
 //@   loop 1: invariant -1 <= rangeindex && rangeindex < len(bptSparseIdxGroup) && tx == old(tx) && tx.db == old(tx.db) && bptSparseIdxGroup == pre(bptSparseIdxGroup) &&
@@ -1156,28 +1198,32 @@ package nutsdb
 //@   ensures[C12,C20] tx.db == nil ==> err == ErrTxClosed
 //@   ensures[C03] err == nil && tx.db.opt.EntryIdxMode != HintBPTSparseIdxMode ==> len(es) > 0 && (limitNum > 0 ==> len(es) <= limitNum)
 //@   ensures[C03] err != nil && tx.db != nil && tx.db.opt.EntryIdxMode != HintBPTSparseIdxMode ==> es == nil
-//@   modifies[C03,C12] lastReadOff, elems(tx.db.BPTreeRootIdxes)
+//@   modifies[C03,C12] lastReadOff
+//@   safety[C14] locks
 //@   safety[C20] panics
 //@ func Tx.PrefixSearchScan
 //@   requires txOK(tx) && (tx.db != nil ==> treesOK(tx.db) && nodesOK(nil))
 //@   requires tx.db != nil && tx.db.opt.EntryIdxMode == HintBPTSparseIdxMode ==> sparseOK(tx.db)
 //@   ensures[C12,C20] tx.db == nil ==> err == ErrTxClosed
 //@   ensures[C03] err == nil && tx.db.opt.EntryIdxMode != HintBPTSparseIdxMode ==> len(es) > 0 && (limitNum > 0 ==> len(es) <= limitNum)
-//@   modifies[C03,C12] lastReadOff, elems(tx.db.BPTreeRootIdxes)
+//@   modifies[C03,C12] lastReadOff
+//@   safety[C14] locks
 //@   safety[C20] panics
 //@ func Tx.GetAll
 //@   requires txOK(tx) && (tx.db != nil ==> treesOK(tx.db))
 //@   requires tx.db != nil && tx.db.opt.EntryIdxMode == HintBPTSparseIdxMode ==> sparseOK(tx.db)
 //@   ensures[C12,C20] tx.db == nil ==> err == ErrTxClosed
 //@   ensures[C01] err == nil && tx.db.opt.EntryIdxMode != HintBPTSparseIdxMode ==> len(entries) > 0
-//@   modifies[C01,C12] lastReadOff, elems(tx.db.BPTreeRootIdxes)
+//@   modifies[C01,C12] lastReadOff
+//@   safety[C14] locks
 //@   safety[C20] panics
 //@ func Tx.RangeScan
 //@   requires txOK(tx) && (tx.db != nil ==> treesOK(tx.db) && tx.db.ActiveBPTreeIdx != nil)
 //@   requires tx.db != nil && tx.db.opt.EntryIdxMode == HintBPTSparseIdxMode ==> sparseOK(tx.db)
 //@   ensures[C12,C20] tx.db == nil ==> err == ErrTxClosed
 //@   ensures[C01,C02] err != nil ==> es == nil
-//@   modifies[C01,C12] lastReadOff, elems(tx.db.BPTreeRootIdxes)
+//@   modifies[C01,C12] lastReadOff
+//@   safety[C14] locks
 //@   safety[C20] panics
 //@   at store es in loop 1: assume item != nil && item.Meta != nil
 //@   at call processEntriesScanOnDisk: assume entsOK($arg0)
@@ -1205,6 +1251,7 @@ package nutsdb
 //@   at call SAdd: assert[C06,C08] entry.Meta.Flag == DataSetFlag && $arg0 == tx.db.SetIdx[bucket] && $arg1 == string(entry.Key) && len($arg2) == 1 && $arg2[0] == entry.Value
 //@   at call SRem: assert[C06,C08] entry.Meta.Flag == DataDeleteFlag && $arg0 == tx.db.SetIdx[bucket] && $arg1 == string(entry.Key) && len($arg2) == 1 && $arg2[0] == entry.Value
 //@   modifies entries(tx.db.SetIdx), entries(tx.db.SetIdx[bucket].M), entries(tx.db.SetIdx[bucket].M[string(entry.Key)]), idxMut
+//@   safety[C14] locks
 //@   safety[C20] panics
 
 //@ func DB.buildSetIdx
@@ -1270,6 +1317,7 @@ package nutsdb
 //@        (forall k string, i int64, j int64 :: !strContains(k, SeparatorForListKey) && string(entry.Key) == concat(concat(k, SeparatorForListKey), itoa(i)) && string(entry.Value) == itoa(j) ==>
 //@           $arg1 == k && $arg2 == i && $arg3 == j)
 //@   modifies entries(tx.db.ListIdx), allentries(tx.db.ListIdx[bucket].Items), allelems(tx.db.ListIdx[bucket].Items[string(entry.Key)]), idxMut
+//@   safety[C14] locks
 //@   safety[C20] panics
 
 //@ func ErrWhenBuildListIdx
@@ -1334,6 +1382,7 @@ package nutsdb
 //@        string(tx.pendingWrites[old(len(tx.pendingWrites))].Key) == concat(concat(string(key), SeparatorForZSetKey), ftoa(score))
 //@   ensures pendingOK(tx)
 //@   modifies[C07,C08,C12] tx.pendingWrites, elems(tx.pendingWrites)
+//@   safety[C14] locks
 //@   safety[C20] panics
 
 //@ func Tx.ZMembers
@@ -1342,29 +1391,34 @@ package nutsdb
 //@   ensures[C07] result1 == nil ==> has(tx.db.SortedSetIdx, bucket) && result0 == zsetOf(tx, bucket).Dict
 //@   ensures[C07] tx.db != nil && !has(tx.db.SortedSetIdx, bucket) ==> result1 == ErrBucket
 //@   modifies[C07,C08,C12] nothing
+//@   safety[C14] locks
 //@   safety[C20] panics
 //@ func Tx.ZCard
 //@   requires txOKz(tx)
 //@   ensures[C12,C20] tx.db == nil ==> result1 == ErrTxClosed
 //@   ensures[C07] result1 == nil ==> has(tx.db.SortedSetIdx, bucket) && result0 == len(zsetOf(tx, bucket).Dict)
 //@   modifies[C07,C08,C12] nothing
+//@   safety[C14] locks
 //@   safety[C20] panics
 //@ func Tx.ZCount
 //@   requires txOKz(tx)
 //@   ensures[C12,C20] tx.db == nil ==> result1 == ErrTxClosed
 //@   modifies[C07,C08,C12] nothing
+//@   safety[C14] locks
 //@   safety[C20] panics
 //@ func Tx.ZPeekMax
 //@   requires txOKz(tx)
 //@   ensures[C12,C20] tx.db == nil ==> result1 == ErrTxClosed
 //@   ensures[C07] result1 == nil ==> has(tx.db.SortedSetIdx, bucket) && result0 == zsetOf(tx, bucket).tail
 //@   modifies[C07,C08,C12] nothing
+//@   safety[C14] locks
 //@   safety[C20] panics
 //@ func Tx.ZPeekMin
 //@   requires txOKz(tx)
 //@   ensures[C12,C20] tx.db == nil ==> result1 == ErrTxClosed
 //@   ensures[C07] result1 == nil ==> has(tx.db.SortedSetIdx, bucket) && result0 == zsetOf(tx, bucket).header.level[0].forward && result0 != zsetOf(tx, bucket).header
 //@   modifies[C07,C08,C12] nothing
+//@   safety[C14] locks
 //@   safety[C20] panics
 //@ func Tx.ZPopMax
 //@   requires txOKz(tx)
@@ -1374,6 +1428,7 @@ package nutsdb
 //@        tx.pendingWrites[old(len(tx.pendingWrites))].Meta.Flag == DataZPopMaxFlag && tx.pendingWrites[old(len(tx.pendingWrites))].Meta.ds == DataStructureSortedSet
 //@   ensures pendingOK(tx)
 //@   modifies[C07,C08,C12] tx.pendingWrites, elems(tx.pendingWrites)
+//@   safety[C14] locks
 //@   safety[C20] panics
 //@ func Tx.ZPopMin
 //@   requires txOKz(tx)
@@ -1383,12 +1438,14 @@ package nutsdb
 //@        tx.pendingWrites[old(len(tx.pendingWrites))].Meta.Flag == DataZPopMinFlag && tx.pendingWrites[old(len(tx.pendingWrites))].Meta.ds == DataStructureSortedSet
 //@   ensures pendingOK(tx)
 //@   modifies[C07,C08,C12] tx.pendingWrites, elems(tx.pendingWrites)
+//@   safety[C14] locks
 //@   safety[C20] panics
 //@ func Tx.ZRangeByScore
 //@   requires txOKz(tx)
 //@   ensures[C12,C20] tx.db == nil ==> result1 == ErrTxClosed
 //@   ensures[C07] result1 == nil ==> has(tx.db.SortedSetIdx, bucket) && (forall k int :: 0 <= k && k < len(result0) ==> result0[k] != nil && result0[k] != zsetOf(tx, bucket).header)
 //@   modifies[C07,C08,C12] nothing
+//@   safety[C14] locks
 //@   safety[C20] panics
 //@ func Tx.ZRangeByRank
 //@   requires txOKz(tx)
@@ -1396,6 +1453,7 @@ package nutsdb
 //@   ensures[C12,C20] tx.db == nil ==> result1 == ErrTxClosed
 //@   ensures[C07] result1 == nil ==> has(tx.db.SortedSetIdx, bucket) && (forall k int :: 0 <= k && k < len(result0) ==> result0[k] != nil && result0[k] != zsetOf(tx, bucket).header)
 //@   modifies[C07,C08,C12] nothing
+//@   safety[C14] locks
 //@   safety[C20] panics
 //@ func Tx.ZRem
 //@   requires txOKz(tx)
@@ -1405,6 +1463,7 @@ package nutsdb
 //@        tx.pendingWrites[old(len(tx.pendingWrites))].Meta.ds == DataStructureSortedSet && string(tx.pendingWrites[old(len(tx.pendingWrites))].Key) == key
 //@   ensures pendingOK(tx)
 //@   modifies[C07,C08,C12] tx.pendingWrites, elems(tx.pendingWrites)
+//@   safety[C14] locks
 //@   safety[C20] panics
 //@ func Tx.ZRemRangeByRank
 //@   requires txOKz(tx)
@@ -1415,28 +1474,33 @@ package nutsdb
 //@        string(tx.pendingWrites[old(len(tx.pendingWrites))].Key) == itoa(start) && string(tx.pendingWrites[old(len(tx.pendingWrites))].Value) == itoa(end)
 //@   ensures pendingOK(tx)
 //@   modifies[C07,C08,C12] tx.pendingWrites, elems(tx.pendingWrites)
+//@   safety[C14] locks
 //@   safety[C20] panics
 //@ func Tx.ZRank
 //@   requires txOKz(tx)
 //@   ensures[C12,C20] tx.db == nil ==> result1 == ErrTxClosed
 //@   modifies[C07,C08,C12] nothing
+//@   safety[C14] locks
 //@   safety[C20] panics
 //@ func Tx.ZRevRank
 //@   requires txOKz(tx)
 //@   ensures[C12,C20] tx.db == nil ==> result1 == ErrTxClosed
 //@   modifies[C07,C08,C12] nothing
+//@   safety[C14] locks
 //@   safety[C20] panics
 //@ func Tx.ZScore
 //@   requires txOKz(tx)
 //@   ensures[C12,C20] tx.db == nil ==> result1 == ErrTxClosed
 //@   ensures[C07] result1 == nil ==> has(tx.db.SortedSetIdx, bucket) && has(zsetOf(tx, bucket).Dict, string(key)) && result0 == zsetOf(tx, bucket).Dict[string(key)].score
 //@   modifies[C07,C08,C12] nothing
+//@   safety[C14] locks
 //@   safety[C20] panics
 //@ func Tx.ZGetByKey
 //@   requires txOKz(tx)
 //@   ensures[C12,C20] tx.db == nil ==> result1 == ErrTxClosed
 //@   ensures[C07] result1 == nil ==> has(tx.db.SortedSetIdx, bucket) && has(zsetOf(tx, bucket).Dict, string(key)) && result0 == zsetOf(tx, bucket).Dict[string(key)]
 //@   modifies[C07,C08,C12] nothing
+//@   safety[C14] locks
 //@   safety[C20] panics
 
 // ---------------------------------------------------------------------------
@@ -1507,17 +1571,21 @@ package nutsdb
 //@   modifies nothing
 
 //@ func Tx.getByHintBPTSparseIdxInMem
+//@   requires[C14] lockMode >= 1
 //@   requires tx != nil && tx.db != nil && sparseOK(tx.db)
 //@   ensures[C02] err != nil ==> e == nil
 //@   ensures[C02] e != nil ==> e.Meta != nil
 //@   modifies lastReadOff
+//@   safety[C14] locks
 //@   safety[C20] panics
 
 //@ func Tx.getByHintBPTSparseIdxOnDisk
+//@   requires[C14] lockMode >= 1
 //@   requires tx != nil && tx.db != nil && sparseOK(tx.db)
 //@   ensures[C02] err != nil ==> e == nil
 //@   ensures[C02] e != nil ==> e.Meta != nil && e.Meta.Flag != DataDeleteFlag && !expiredAt(e.Meta.TTL, e.Meta.timestamp, clock)
 //@   modifies lastReadOff
+//@   safety[C14] locks
 //@   safety[C20] panics
 //@   loops 2
 //@   loop 1: modifies nothing
@@ -1529,10 +1597,12 @@ package nutsdb
 //@   at call FindOnDisk: assert[C02] $arg3 == key && string($arg4) == concat(bucket, string(key)) && cmp($arg4, bptSparse.start) >= 0 && cmp($arg4, bptSparse.end) <= 0
 
 //@ func Tx.getByHintBPTSparseIdx
+//@   requires[C14] lockMode >= 1
 //@   requires tx != nil && tx.db != nil && sparseOK(tx.db)
 //@   ensures[C02] err != nil ==> e == nil
 //@   ensures[C02] err == nil ==> e != nil && e.Meta != nil && e.Meta.Flag != DataDeleteFlag && !expiredAt(e.Meta.TTL, e.Meta.timestamp, clock)
 //@   modifies lastReadOff
+//@   safety[C14] locks
 //@   safety[C20] panics
 
 //@ spec func entsOK(es []*Entry) bool = forall k int :: 0 <= k && k < len(es) ==> es[k] != nil && es[k].Meta != nil
@@ -1551,11 +1621,14 @@ package nutsdb
 //@   loop 2: invariant forall k int :: 0 <= k && k < len(result) ==> result[k] != nil && result[k].Meta != nil && result[k].Meta.Flag != DataDeleteFlag && !expiredAt(result[k].Meta.TTL, result[k].Meta.timestamp, clock)
 
 //@ func Tx.prefixScanOnDisk
+//@   requires[C14] lockMode >= 1
 //@   requires tx != nil && tx.db != nil && rootIdxesOK(tx.db)
 //@   ensures[C02] result2 == nil ==> entsOK(result0)
 //@   ensures rootIdxesOK(tx.db)
-//@   modifies lastReadOff, elems(tx.db.BPTreeRootIdxes)
+//@   modifies lastReadOff
+//@   safety[C14] locks
 //@   safety[C20] panics
+//@   at call SortFID: assert[C12,C14] len($arg0) > 0 ==> arr($arg0) != arr(tx.db.BPTreeRootIdxes)
 //@   loops 1
 //@   loop 1: modifies lastReadOff
 //@   loop 1: invariant -1 <= rangeindex && rangeindex < len(bptSparseIdxGroup) && tx == old(tx) && tx.db == old(tx.db) && bptSparseIdxGroup == pre(bptSparseIdxGroup) && limitNum == old(limitNum) &&
@@ -1565,11 +1638,14 @@ package nutsdb
 //@   branch 3: iff[C02] cmp(newPrefix, bptSparseIdx.end) <= 0
 
 //@ func Tx.prefixSearchScanOnDisk
+//@   requires[C14] lockMode >= 1
 //@   requires tx != nil && tx.db != nil && rootIdxesOK(tx.db)
 //@   ensures[C02] result2 == nil ==> entsOK(result0)
 //@   ensures rootIdxesOK(tx.db)
-//@   modifies lastReadOff, elems(tx.db.BPTreeRootIdxes)
+//@   modifies lastReadOff
+//@   safety[C14] locks
 //@   safety[C20] panics
+//@   at call SortFID: assert[C12,C14] len($arg0) > 0 ==> arr($arg0) != arr(tx.db.BPTreeRootIdxes)
 //@   loops 1
 //@   loop 1: modifies lastReadOff
 //@   loop 1: invariant -1 <= rangeindex && rangeindex < len(bptSparseIdxGroup) && tx == old(tx) && tx.db == old(tx.db) && bptSparseIdxGroup == pre(bptSparseIdxGroup) && limitNum == old(limitNum) &&
@@ -1579,28 +1655,34 @@ package nutsdb
 //@   branch 3: iff[C02] cmp(newPrefix, bptSparseIdx.end) <= 0
 
 //@ func Tx.prefixScanByHintBPTSparseIdx
+//@   requires[C14] lockMode >= 1
 //@   requires tx != nil && tx.db != nil && sparseOK(tx.db)
 //@   ensures[C02] err != nil ==> es == nil
 //@   ensures[C02] err == nil ==> entsOK(es)
-//@   modifies lastReadOff, elems(tx.db.BPTreeRootIdxes)
+//@   modifies lastReadOff
+//@   safety[C14] locks
 //@   safety[C20] panics
 //@   at store es in loop 1: assume item != nil && item.Meta != nil
 //@   branch 8: implied-by[C02] limitNum > 0 && limitNum > len(es)
 //@   branch 9: iff[C02] limitNum <= 0
+//@   at call processEntriesScanOnDisk: assume entsOK($arg0)
 //@   loops 1
 //@   loop 1: modifies lastReadOff
 //@   loop 1: invariant -1 <= rangeindex && rangeindex < len(records) && tx == old(tx) && tx.db == old(tx.db) && records == pre(records) && recsOK(records) && limitNum == old(limitNum) &&
 //@        (arr(es) == arr(pre(es)) || sinceLoop(es)) && entsOK(es)
 
 //@ func Tx.prefixSearchScanByHintBPTSparseIdx
+//@   requires[C14] lockMode >= 1
 //@   requires tx != nil && tx.db != nil && sparseOK(tx.db)
 //@   ensures[C02] err != nil ==> es == nil
 //@   ensures[C02] err == nil ==> entsOK(es)
-//@   modifies lastReadOff, elems(tx.db.BPTreeRootIdxes)
+//@   modifies lastReadOff
+//@   safety[C14] locks
 //@   safety[C20] panics
 //@   at store es in loop 1: assume item != nil && item.Meta != nil
 //@   branch 8: implied-by[C02] limitNum > 0 && limitNum > len(es)
 //@   branch 9: iff[C02] limitNum <= 0
+//@   at call processEntriesScanOnDisk: assume entsOK($arg0)
 //@   loops 1
 //@   loop 1: modifies lastReadOff
 //@   loop 1: invariant -1 <= rangeindex && rangeindex < len(records) && tx == old(tx) && tx.db == old(tx.db) && records == pre(records) && recsOK(records) && limitNum == old(limitNum) &&
@@ -1609,7 +1691,8 @@ package nutsdb
 //@ func Tx.getAllByHintBPTSparseIdx
 //@   requires txOK(tx) && tx.db != nil && treesOK(tx.db) && sparseOK(tx.db)
 //@   ensures[C02] err != nil ==> entries == nil
-//@   modifies lastReadOff, elems(tx.db.BPTreeRootIdxes)
+//@   modifies lastReadOff
+//@   safety[C14] locks
 //@   safety[C20] panics
 
 // ---------------------------------------------------------------------------
@@ -1649,12 +1732,14 @@ package nutsdb
 //@   ensures[C12,C14] err != nil ==> tx == nil && lockMode == 0
 //@   ensures[C20] db.closed ==> err != nil
 //@   modifies lockMode
+//@   safety[C14] locks
 //@   safety[C20] panics
 //@ func Tx.Rollback
 //@   requires tx != nil && (tx.db != nil ==> (tx.writable ==> lockMode == 2) && (!tx.writable ==> lockMode == 1))
 //@   ensures[C12,C14] old(tx.db) == nil ==> result == ErrDBClosed && lockMode == old(lockMode)
 //@   ensures[C12,C14] old(tx.db) != nil ==> result == nil && lockMode == 0 && tx.db == nil && tx.pendingWrites == nil
 //@   modifies[C12] tx.db, tx.pendingWrites, lockMode
+//@   safety[C14] locks
 //@   safety[C20] panics
 //@ func DB.Close
 //@   requires db != nil && lockMode == 0 && (!db.closed ==> db.ActiveFile != nil && db.ActiveFile.rwManager != nil)
@@ -1662,6 +1747,7 @@ package nutsdb
 //@   ensures[C20] old(db.closed) ==> result == ErrDBClosed
 //@   ensures !old(db.closed) ==> result == nil && db.closed
 //@   modifies db.closed, db.ActiveFile, db.BPTreeIdx, lockMode
+//@   safety[C14] locks
 //@   safety[C20] panics
 
 // ---------------------------------------------------------------------------
@@ -1678,6 +1764,7 @@ package nutsdb
 //@   requires entry != nil && entry.Meta != nil
 //@   ensures[C15] result == (deadFlag(entry.Meta.Flag) || expiredAt(entry.Meta.TTL, entry.Meta.timestamp, clock))
 //@   modifies nothing
+//@   safety[C17] locks
 //@   safety[C20] panics
 //@   pure
 
@@ -1686,6 +1773,7 @@ package nutsdb
 //@   ensures[C15] err != nil ==> record == nil
 //@   ensures[C15] record != nil ==> has(db.BPTreeIdx, string(bucket)) && record.H != nil && record.H.meta != nil
 //@   modifies nothing
+//@   safety[C17] locks
 //@   safety[C20] panics
 
 //@ func DB.getPendingMergeEntries
@@ -1695,6 +1783,7 @@ package nutsdb
 //@   ensures[C15] forall k int :: 0 <= k && k < len(pendingMergeEntries) ==> result[k] == pendingMergeEntries[k]
 //@   ensures[C15] len(result) == len(pendingMergeEntries) + 1 ==> result[len(pendingMergeEntries)] == entry
 //@   modifies elems(pendingMergeEntries)
+//@   safety[C17] locks
 //@   safety[C20] panics
 //@   loops 1
 //@   loop 1: modifies nothing
@@ -1713,6 +1802,7 @@ package nutsdb
 //@   ensures result == nil ==> db.isMerging == old(db.isMerging)
 //@   ensures[C14,C15,C17] lockMode == 0
 //@   modifies everything
+//@   safety[C17] locks
 //@   safety[C20] panics
 //@   loops 1
 //@   loop 1: invariant -1 <= rangeindex && rangeindex < len(pendingMergeEntries) && db == old(db) && tx != nil && tx.db == db && tx.writable && lockMode == 2 && pendingOK(tx) &&
@@ -1727,6 +1817,7 @@ package nutsdb
 //@   ensures[C14,C15,C17] lockMode == 0
 //@   ensures[C15] db.isMerging ==> old(db.isMerging)
 //@   modifies everything
+//@   safety[C17] locks
 //@   safety[C20] panics
 //@   loops 2
 //@   loop 1: invariant -1 <= rangeindex && rangeindex < len(pendingMergeFIds) && db == old(db) && lockMode == 0 && rewrites - removes == old(rewrites - removes) && treesOK(db)
@@ -1740,3 +1831,51 @@ package nutsdb
 //@   branch 12: iff[C15] r.H.dataPos > off
 //@   at call getPendingMergeEntries: assert[C15] !deadFlag(entry.Meta.Flag) && !expiredAt(entry.Meta.TTL, entry.Meta.timestamp, clock)
 //@   at call getPendingMergeEntries: assert[C15] entry.Meta.ds == DataStructureBPTree ==> r != nil && r.H.fileID == pendingMergeFId && r.H.dataPos == off
+
+// ---------------------------------------------------------------------------
+// Managed transactions, Backup (C12, C14, C17, C18): lock typestate around the user callback.
+// $dynamic.managed is the contract ASSUMED for the callback passed to Update / View: it uses the transaction
+// API only (frames of the Tx methods), does not finish the transaction itself and does not panic.
+//@ func $dynamic.managed (tx) (err)
+//@   ensures lockMode == old(lockMode) && tx.db == old(tx.db) && tx.writable == old(tx.writable) && tx.ReservedStoreTxIDIdxes == old(tx.ReservedStoreTxIDIdxes)
+//@   ensures old(pendingOK(tx)) ==> pendingOK(tx)
+//@   ensures !tx.writable ==> len(tx.pendingWrites) == old(len(tx.pendingWrites))
+//@   ensures old(applicable(tx.db)) ==> applicable(tx.db)
+//@   ensures old(treesOK(tx.db)) ==> treesOK(tx.db)
+//@   modifies tx.pendingWrites, elems(tx.pendingWrites), lastReadOff
+
+//@ func DB.managed
+//@   requires db != nil && lockMode == 0
+//@   at entry: assume !db.closed ==> dbOK(db) && applicable(db) && treesOK(db) && (db.opt.SyncEnable ==> unsynced == 0) &&
+//@        (db.opt.EntryIdxMode == HintBPTSparseIdxMode ==> db.ActiveBPTreeIdx != nil && db.ActiveCommittedTxIdsIdx != nil && db.bucketMetas != nil)
+//@   ensures[C12,C14,C17] lockMode == 0
+//@   modifies everything
+//@   safety[C14] locks
+//@   safety[C20] panics
+//@   at call $dynamic: assert[C14,C18] (writable ==> lockMode == 2) && (!writable ==> lockMode == 1) && tx.db == db && len(tx.pendingWrites) == 0
+
+//@ func DB.Update
+//@   requires db != nil && lockMode == 0
+//@   ensures[C12,C14] lockMode == 0
+//@   modifies everything
+//@   safety[C20] panics
+//@ func DB.View
+//@   requires db != nil && lockMode == 0
+//@   ensures[C12,C14] lockMode == 0
+//@   modifies everything
+//@   safety[C20] panics
+
+//@ extern github.com/xujiajun/utils/filesystem.CopyDir (src, dst) (err)
+//@   modifies nothing
+//@ func DB.Backup
+//@   requires db != nil && lockMode == 0
+//@   ensures[C14,C18] lockMode == 0
+//@   modifies everything
+//@   safety[C20] panics
+// the function literal inside Backup: it runs as the callback of View, i.e. under the read lock (DB.managed proves
+// lockMode == 1 at the call of a read-only callback), and copies the directory while holding it
+//@ func Backup$1
+//@   requires lockMode == 1
+//@   ensures[C18] lockMode == 1
+//@   at call CopyDir: assert[C18] lockMode == 1
+//@   modifies nothing
